@@ -19,7 +19,7 @@ EXPLORATION_ASSUMPTIONS = [
     'release-equivalent build (debug assertions and overflow checks off), feature verif on',
 ]
 
-HOOK_COMMITS = ['979f880', '01f0fed']
+HOOK_COMMITS = ['979f880', '01f0fed', '19b23f1', '6b53965', '6758f12', 'e9b6269', 'e0fdcfb']
 
 ALL = ['C%02d' % i for i in range(1, 21)]
 
